@@ -41,4 +41,29 @@ def firesCase (req : Lean.Json) : Lean.Json :=
 def actEndCase (req : Lean.Json) : Lean.Json :=
   Lean.Json.mkObj [("act", Lean.Json.str (Acts.Subflow.actEnd (TaskState.ofStr (jstr req "child"))).toStr)]
 
+/-- {"slots": 2, "events": [["start", 0], ["ends", 0, "error"], ["ret", 0]]} -> the slots of the call/return machine after the events -/
+def machineCase (req : Lean.Json) : Lean.Json :=
+  let evs : List Acts.Subflow.Ev := (jarr req "events").toList.filterMap fun e =>
+    let a := asArr e
+    match asStr a[0]! with
+    | "start" => some (.start (asNat a[1]!))
+    | "ends" => some (.childEnds (asNat a[1]!) (TaskState.ofStr (asStr a[2]!)))
+    | "ret" => some (.ret (asNat a[1]!))
+    | _ => none
+  let ss := Acts.Subflow.run (List.replicate (jnat req "slots") {}) evs
+  let st (o : Option TaskState) : Lean.Json := match o with | some s => Lean.Json.str s.toStr | none => Lean.Json.null
+  Lean.Json.mkObj [("slots", Lean.Json.arr (ss.map fun sl =>
+      Lean.Json.mkObj [("started", Lean.Json.bool sl.started), ("child", st sl.childEnd), ("closed", st sl.closed)]).toArray),
+    ("done", Lean.Json.bool (Acts.Subflow.parentDone ss))]
+
+/-- {"seq": true, "n": 3, "finish": [0, 1]} -> after each finish event the groups that are open and unfinished, and whether the generator may complete -/
+def schedCase (req : Lean.Json) : Lean.Json :=
+  let g0 : Gen := { seq := jbool req "seq", n := jnat req "n", fin := [] }
+  let ks := (jarr req "finish").toList.map asNat
+  let step (acc : Gen × List Lean.Json) (k : Nat) : Gen × List Lean.Json :=
+    let g := acc.1.finish k
+    (g, acc.2 ++ [Lean.Json.mkObj [("active", Lean.Json.arr (g.active.map fun (x : Nat) => Lean.Json.num (x : Nat)).toArray), ("complete", Lean.Json.bool g.complete)]])
+  let r := ks.foldl step (g0, [Lean.Json.mkObj [("active", Lean.Json.arr (g0.active.map fun (x : Nat) => Lean.Json.num (x : Nat)).toArray), ("complete", Lean.Json.bool g0.complete)]])
+  Lean.Json.mkObj [("states", Lean.Json.arr r.2.toArray)]
+
 end Acts.Driver
